@@ -196,8 +196,10 @@ let handle_transmit_seq line toks =
     lmap
       (fun c ->
         match String.split_on_char ';' c with
-        | [ fr; dl; da; wa ] ->
-            ((bool_of dl, { ans_deadline = opt_error_of_code da; ans_write = opt_error_of_code wa }), frame_of_str fr)
+        | [ fr; dl; da; wn; wa ] ->
+            ( ( bool_of dl,
+                { ans_deadline = opt_error_of_code da; ans_write = opt_error_of_code wa; ans_write_n = z_of_hex wn } ),
+              frame_of_str fr )
         | _ -> failwith ("bad call " ^ c))
       calls_t
   in
@@ -212,8 +214,9 @@ let handle_transmit_seq line toks =
   List.iter
     (fun (((dl, a), _), (_, r)) ->
       let k =
-        Printf.sprintf "X-%s%s%s" (if dl then "dl" else "nodl")
+        Printf.sprintf "X-%s%s-n%s%s" (if dl then "dl" else "nodl")
           (if dl && a.ans_deadline <> None then "-dlfail" else "")
+          (hex_of_z a.ans_write_n) (if a.ans_write <> None then "e" else "")
           (match r with TxOk -> "-ok" | TxErr _ -> "-err" | TxPanic -> "-panic")
       in
       Hashtbl.replace kinds k (1 + try Hashtbl.find kinds k with Not_found -> 0))
@@ -223,15 +226,35 @@ let handle_transmit_seq line toks =
     let clause =
       let count p l = llen (List.filter p l) in
       let isw s = String.length s > 0 && s.[0] = 'W' and isi s = String.length s > 0 && s.[0] = 'I' in
-      if count isw events_t <> count isw expected then "one-16-byte-write-per-call"
+      let res_nil l = List.filter (fun s -> String.length s > 0 && s.[0] = 'R') l in
+      if count isw events_t <> count isw expected then "exactly-one-16-byte-write-per-call"
+      else if res_nil events_t <> res_nil expected then "result-nil-iff-the-write-returned-nil"
       else if count isi events_t <> count isi expected then "interceptor-iff-write-succeeded"
       else "order-or-content"
     in
     pfail line clause (String.concat " " expected)
   end
 
+(* K goroutines on one shared Transmitter: the multiset of blocks the connection was given must be
+   the multiset of the frames' struct can_frame layouts *)
+let handle_concurrent line toks =
+  let frames_t, blocks_t = split_bar [] toks in
+  let frames = lmap frame_of_str frames_t in
+  List.iter (fun f -> if not (wf_frameb f && s_validb f) then failwith ("concurrent case with a non-valid frame: " ^ line)) frames;
+  let expected = List.sort compare (lmap (fun f -> hex_of_data (s_layout f)) frames) in
+  List.iter
+    (fun f ->
+      match transmit_bytes f with
+      | Some b when hex_of_data b = hex_of_data (s_layout f) -> ()
+      | _ -> failwith ("model and specification differ (layout): " ^ line))
+    frames;
+  note_case (Printf.sprintf "C-%d-goroutines" (llen frames)) line;
+  let got = List.sort compare blocks_t in
+  if got <> expected then pfail line "concurrent-transmit-blocks-differ" (String.concat " " expected)
+
 let handle line =
   match split_ws line with
+  | "C" :: toks -> handle_concurrent line toks
   | [ "V"; fr; ok ] -> handle_validate line fr ok
   | "T" :: fr :: "|" :: nw :: hx :: err :: "|" :: rx -> handle_transmit line fr nw hx err rx
   | "R" :: blk :: "|" :: rest -> handle_block line blk rest
